@@ -204,7 +204,7 @@ def run(ctx: Ctx):
     judge_histories(ctx, s, [seq_case(m) for m in muts])
     s.finish()
     s = Stream(ctx, "misspelt / too-deep module names (also level-limited graphs)")
-    name_cases(ctx, ctx.rng("names"), 4000 if quick else 60000, s)
+    name_cases(ctx, ctx.rng("names"), ctx.size(4000, 60000), s)
     s.finish()
     from . import c13_more
 
